@@ -13,48 +13,59 @@ PROPERTY = 'C02'
 LOG = []        # (instance, event, args...) in real delivery order
 
 
-@desper.event_handler('on_add', 'on_remove', 'probe')
-class Hd:
-    def on_add(self, entity, world):
-        LOG.append((self, 'on_add', entity, world))
+def make_classes(ns):
+    """The five component classes, optionally with unusual instances (extra namespace entries)."""
 
-    def on_remove(self, entity, world):
-        LOG.append((self, 'on_remove', entity, world))
+    @desper.event_handler('on_add', 'on_remove', 'probe')
+    class Hd:
+        def on_add(self, entity, world):
+            LOG.append((self, 'on_add', entity, world))
 
-    def probe(self):
-        LOG.append((self, 'probe'))
+        def on_remove(self, entity, world):
+            LOG.append((self, 'on_remove', entity, world))
+
+        def probe(self):
+            LOG.append((self, 'probe'))
+
+    class Hs(Hd):
+        pass
+
+    class N:
+        """not a handler"""
+
+    @desper.event_handler('probe')
+    class Ha(desper.Controller):
+        """handler with on_add (via Controller) but no on_remove"""
+
+        def on_add(self, entity, world):
+            super().on_add(entity, world)
+            LOG.append((self, 'on_add', entity, world))
+
+        def probe(self):
+            LOG.append((self, 'probe'))
+
+    @desper.event_handler('probe')
+    class Ho:
+        """handler without on_add / on_remove"""
+
+        def probe(self):
+            LOG.append((self, 'probe'))
+
+    for cls in (Hd, N, Ha, Ho):
+        for k, v in ns.items():
+            setattr(cls, k, v)
+    classes = [Hd, Hs, N, Ha, Ho]
+    sets = [[Hd], [Hs], [N], [Ha], [Ho], [Hd, N], [Hd, Hs], [Ha, Ho]]
+    return classes, sets
 
 
-class Hs(Hd):
-    pass
-
-
-class N:
-    """not a handler"""
-
-
-@desper.event_handler('probe')
-class Ha(desper.Controller):
-    """handler with on_add (via Controller) but no on_remove"""
-
-    def on_add(self, entity, world):
-        super().on_add(entity, world)
-        LOG.append((self, 'on_add', entity, world))
-
-    def probe(self):
-        LOG.append((self, 'probe'))
-
-
-@desper.event_handler('probe')
-class Ho:
-    """handler without on_add / on_remove"""
-
-    def probe(self):
-        LOG.append((self, 'probe'))
-
-
-CLASSES = [Hd, Hs, N, Ha, Ho]
-CREATE_SETS = [[Hd], [Hs], [N], [Ha], [Ho], [Hd, N], [Hd, Hs], [Ha, Ho]]
+FLAVOURS = {
+    'plain': make_classes({}),
+    'falsy': make_classes({'__bool__': lambda self: False}),
+    'empty': make_classes({'__len__': lambda self: 0}),
+}
+CLASSES, CREATE_SETS = FLAVOURS['plain']
+Hd, Hs, N, Ha, Ho = CLASSES
 
 
 def has(cls, event):
@@ -144,7 +155,7 @@ def oracle(sp, w, m, when, consumed):
             sp.check(w.is_handler(inst) is is_att, 'is_handler',
                      '%s: is_handler(%s#%x) is %s but attached is %s' % (
                          when, type(inst).__name__, id(inst) & 0xfff, w.is_handler(inst), is_att))
-            if isinstance(inst, Ha) and is_att and m.enabled:
+            if isinstance(inst, desper.Controller) and is_att and m.enabled:
                 owner = [e for e, comps in m.ents.items() if any(c is inst for c in comps.values())][0]
                 sp.check(inst.entity == owner and inst.world is w, 'controller-owner',
                          '%s: Controller knows entity %r world %r, real owner %r' % (
@@ -152,12 +163,15 @@ def oracle(sp, w, m, when, consumed):
     return consumed
 
 
-def h_life(sp, L=3, ids=(1, 2), classes=5, create_sets=8, auto=True, reuse=True):
+def h_life(sp, L=3, ids=(1, 2), classes=5, create_sets=8, auto=True, reuse=True, flavour='plain'):
     del LOG[:]
     w = World()
     m = Model(w)
-    cls = CLASSES[:classes]
-    csets = CREATE_SETS[:create_sets]
+    all_classes, all_sets = FLAVOURS[flavour]
+    cls = all_classes[:classes]
+    csets = all_sets[:create_sets]
+    if flavour != 'plain':
+        sp.cover('unusual-' + flavour)
     ids = list(ids)
     consumed = 0
     n_ops = 10
@@ -328,10 +342,13 @@ HARNESSES = {
                            'attach-disabled']),
 }
 TIERS = {
-    'quick': [('life', dict(L=3))],
+    'quick': [('life', dict(L=3)),
+              ('life', dict(L=2, flavour='falsy'), dict(required=['unusual-falsy', 'replace', 'remove', 'probe'])),
+              ('life', dict(L=2, flavour='empty'), dict(required=['unusual-empty', 'replace', 'remove', 'probe']))],
     'thorough': [('life', dict(L=4, ids=(1,), classes=5, create_sets=7, auto=True)),
                  ('life', dict(L=4, ids=(1, 2), classes=3, create_sets=3, auto=False)),
-                 ('life', dict(L=5, ids=(1,), classes=2, create_sets=2, auto=False, reuse=False))],
+                 ('life', dict(L=5, ids=(1,), classes=2, create_sets=2, auto=False, reuse=False)),
+                 ('life', dict(L=3, flavour='falsy')), ('life', dict(L=3, flavour='empty'))],
 }
 BUDGET_S = {'quick': 150, 'thorough': 1500}
 EXPLANATION = (
@@ -355,6 +372,7 @@ ASSUMPTIONS = [
     'forever, dispatch is enabled after this operation") contradicts postponement, so that combination is outside the claim',
     'probe events are only dispatched while dispatching is enabled (deferred delivery of ordinary events is C04)',
     'an instance is attached to at most one entity at a time; callbacks do not raise (C04/C05)',
+    'component instances may be falsy (__bool__ False) or empty (__len__ 0): flavours falsy / empty',
     're-populating an id emptied while its deferred-deletion mark was pending is outside the claim (as in C01)',
 ]
 OUTSIDE = ['histories longer than L', 'processors (C07)', 'callbacks that mutate the world']
